@@ -114,10 +114,27 @@ def main():
     if spec.get("whoami"):
         with open(os.path.join(os.path.dirname(sys.argv[1]), "whoami"), "w") as wf:
             wf.write(eliot.__file__)
-    f = KillFile(fd, spec)
+    sink = str(spec.get("sink") or "")
+    if sink.startswith("pyfile:"):
+        # the application's own file object, handed to the library as it is: append / update / write modes (BufferedWriter,
+        # BufferedRandom, TextIOWrapper), default or explicit buffer size; kill points are then the returns of logging calls
+        mode = sink.split(":", 1)[1]
+        kw = {"buffering": int(spec["bufsize"])} if spec.get("bufsize") else {}
+        if "b" not in mode:
+            kw.update(encoding="utf-8", newline="")
+        os.close(fd)
+        f = open(spec["log"], mode, **kw)
+    else:
+        f = KillFile(fd, spec)
+    nack = [0]
 
     def ack():
         os.write(ackfd, b"A")
+        k = spec.get("kill")
+        if k is not None and k["at"] == "after-ack":
+            if k["n"] == nack[0]:
+                die()
+        nack[0] += 1
 
     nested = [0]
     kill = spec.get("kill")
